@@ -3,6 +3,8 @@ from __future__ import annotations
 
 import ast
 import inspect
+import os
+import sys
 import time
 import traceback
 
@@ -286,9 +288,23 @@ class Contract:
                 eff(old, self_obj, a, result)
         ens_fn = getattr(self, "ensures_callee", None) or self.ensures
         ens = ens_fn(old, self_obj, a, result) if self_obj is not None else ens_fn(a, result)
+        _label = None
         try:
             for _label, fml in self._gen(ens):
                 st.assume(fml if isinstance(fml, (SBool, bool)) else mk_bool(V._zb(fml)))
+        except PathEnd:
+            if os.environ.get("PYVC_DEBUG_DEAD"):
+                # (developer aid) which clause of the callee's postcondition was concretely false at this call site.  Often
+                # legitimate -- the engine forks over the alternatives of an optional result and the postcondition rules one
+                # out -- but a clause about the EVENTS of the callee's body (which a call site does not replay) is false at
+                # every call site and silently ends the caller's path: such clauses belong in `ensures` only, callers get
+                # `ensures_callee`.  The reach@after guard below catches the case where no path survives.
+                print(f"DEAD {ip.task.name} @{f.ref.qualname}:{(site or '').split(':')[-1]} clause={_label}", file=sys.stderr)
+            # the callee's postcondition is concretely false here: the path ends -- the reachability guard of this call
+            # site must not silently disappear with it (a caller could otherwise come back "ok" with no obligations left)
+            if check_pre and not getattr(self, "never_returns", False):
+                st.cover_dead(f"{ip.task.name}/reach@after-{f.ref.qualname}:{(site or '').split(':')[-1]}")
+            raise
         finally:
             st.trace = saved_global + st.trace
         if check_pre:
@@ -511,7 +527,7 @@ class VerifyTask:
         if m is None:
             return NotImplemented
         key = f"{m.relpath}:{cls.__qualname__}.__init__"
-        c = REGISTRY.get(key)
+        c = self.contract_for(key, None)  # (the task's `contract_overrides` first, as for function calls)
         if c is None or getattr(c, "constructs", None) is None:
             return NotImplemented
         obj = c.constructs.fresh(st, cls.__name__.lower())
@@ -522,12 +538,24 @@ class VerifyTask:
         pre = c.requires(obj, a) if c.self_shape is not None else c.requires(a)
         st.oblige(f"{self.name}/call-pre@{cls.__name__}():{(site or '').split(':')[-1]}", pre if isinstance(pre, (SBool, bool)) else mk_bool(V._zb(pre)), "call-pre")
         excs = list(c.raises)
-        if excs:
+        riff = getattr(c, "raises_iff", None)
+        if riff is not None:
+            # a constructor contract that says exactly when it raises (as Contract.apply does for functions):
+            # the caller follows the exceptional path only where one of the conditions holds
+            excs = list(riff)
+            conds = [riff[e](obj, a) if c.self_shape is not None else riff[e](a) for e in excs]
+            conds = [cnd if isinstance(cnd, (SBool, bool)) else mk_bool(V._zb(cnd)) for cnd in conds]
+            k = st.choose([both(*[neg(cnd) for cnd in conds])] + conds)
+            if k > 0:
+                raise PyRaise(SExc(excs[k - 1], ("<from constructor contract>",), site=f"callee {cls.__name__}"))
+        elif excs:
             k = st.fork(len(excs) + 1)
             if k > 0:
                 raise PyRaise(SExc(excs[k - 1], ("<from constructor contract>",), site=f"callee {cls.__name__}"))
-        for _l, fml in c._gen(c.ensures(None, obj, a, None)):
+        ens_fn = getattr(c, "ensures_callee", None) or c.ensures  # the callee-side form, as Contract.apply uses
+        for _l, fml in c._gen(ens_fn(None, obj, a, None)):
             st.assume(fml if isinstance(fml, (SBool, bool)) else mk_bool(V._zb(fml)))
+        st.cover(f"{self.name}/reach@after-{cls.__name__}():{(site or '').split(':')[-1]}")
         self.used_contracts.add(key)
         return obj
 
@@ -668,6 +696,10 @@ class VerifyTask:
         res.solver_time = ex.solver_time
         res.queries = ex.queries
         res.obligations = [o.as_dict() | ({"smt2": o.smt2} if o.smt2 else {}) for o in ex.results()]
+        if res.status == "ok" and self.config.shard is None and not any(o["kind"] == "cover" and ("cover@exit" in o["name"] or "cover@raise" in o["name"]) for o in res.obligations):
+            # no explored path reached a normal or exceptional exit: every postcondition is vacuously "proved".
+            # (sharded runs: each shard sees part of the paths only; the merged result is judged in runner._merge_shards)
+            res.obligations.append({"name": f"{self.name}/cover@exit", "kind": "cover", "status": "uncovered", "time": 0.0, "backend": "", "detail": "no explored path reaches an exit of the function", "path": [], "model": None})
         for chk in getattr(self.c, "static_checks", []) or []:
             try:
                 label, ok, detail = chk()
